@@ -16,6 +16,10 @@ func init() {
 				Quick: map[string]int{"hmax": 2}, Thorough: map[string]int{"hmax": 3},
 				Reach:     []string{"history through the gateway"},
 				Functions: []string{"(*Gateway).queryHandler", "planner.(*CachedPlanner).Plan", "planner.(*CachedPlanner).hash", "planner.SequentialPlanner.Plan", "executor.ParallelExecutor.Execute", "planner.ScrubFields.Clean"}},
+			{Name: "cache-mixed-introspection", Pkg: ".", Files: []string{"root/fed.go", "root/c01.go", "root/c14g.go"}, Entry: "VerifCacheGateway", Mode: "seq",
+				Quick: map[string]int{"hmax": 2, "mixedpool": 1, "maporder": 1}, Thorough: map[string]int{"hmax": 3, "mixedpool": 1, "maporder": 2},
+				Reach:     []string{"history through the gateway"},
+				Functions: []string{"(*Gateway).queryHandler", "(*Gateway).parseIntrospectionQuery", "planner.(*CachedPlanner).Plan", "planner.routeSelectionSet"}},
 			{Name: "subscriptions-on-cached-plan", Pkg: ".", Files: []string{"root/fed.go", "root/c01.go", "root/ws.go", "root/c17.go"}, Entry: "VerifEvents", Mode: "seq",
 				Quick: map[string]int{"cached": 1, "maxsubs": 2, "maxevents": 1, "quickmerge": 0}, Thorough: map[string]int{"cached": 1, "maxsubs": 2, "maxevents": 2, "quickmerge": 0},
 				Reach:     []string{"two subscriptions", "events checked"},
